@@ -25,7 +25,7 @@ impl SOA {
 // ---- RFC 2136 3.4.1: the Update Section prescan (SqliteZoneHandler::pre_scan, an `async fn` without awaits).
 //      C12: "a message whose prerequisites or prescan fail changes nothing" -- WHICH messages fail the prescan is
 //      RFC 2136 3.4.1.3, written here as a spec predicate per update RR. ----
-#[derive(Clone, Copy)] pub enum ResponseCode { NoError, FormErr, NotZone, Other(u16) }
+#[derive(Clone, Copy)] pub enum ResponseCode { NoError, FormErr, NotZone, NXDomain, NXRRSet, YXDomain, YXRRSet, Other(u16) }
 #[derive(Clone, Copy)] pub enum DNSClass { IN, CH, HS, NONE, ANY, Other(u16) }
 impl vstd::std_specs::cmp::PartialEqSpecImpl for DNSClass { open spec fn obeys_eq_spec() -> bool { true } open spec fn eq_spec(&self, o: &DNSClass) -> bool { *self == *o } }
 impl PartialEq for DNSClass {
@@ -155,6 +155,83 @@ fn acc_delete_rr(rrset: &mut VpRecordSet, rr: &Record, serial: u32, updated_in: 
 //%sub1 "Arc::new(rrset_clone)" => "rrset_clone" # R-shim: the Arc around the stored RRset is dropped (copy-on-write of the node)
 //%end
     updated
+}
+
+// ---- RFC 2136 3.2: the Prerequisite Section (SqliteZoneHandler::verify_prerequisites, whole function; an async fn whose
+//      awaits are zone lookups: R-await). C12: "each message's prerequisites are judged against the zone as left by the earlier
+//      messages, a message whose prerequisites ... fail changes nothing": the function only READS the zone (it takes &self and
+//      every zone access is a lookup), and WHICH messages pass is 3.2.1-3.2.5, written here as a predicate per prerequisite RR
+//      over the zone's current content `zone_rrs(z, name, type)` (type ANY: every RR at the name). ----
+pub uninterp spec fn zone_rrs(z: u64, name: Name, t: RecordType) -> Seq<Record>;
+pub open spec fn data_eq(a: RData, b: RData) -> bool {
+    match (a, b) { (RData::Update0(_), RData::Update0(_)) => true, (RData::NULL(x), RData::NULL(y)) => x == y, (RData::Other(x), RData::Other(y)) => x == y, _ => false }
+}
+// PartialEq for Record (rr/record.rs): name, class and RDATA; the TTL is not compared
+pub open spec fn rec_eq(a: Record, b: Record) -> bool { a.name.id == b.name.id && a.dns_class == b.dns_class && data_eq(a.data, b.data) }
+#[verifier::external_body] pub fn vp_rec_eq(a: &Record, b: &Record) -> (r: bool) ensures r == rec_eq(*a, *b) { unimplemented!() }
+pub struct VpLookup { pub recs: Vec<Record> }
+impl VpLookup {
+    pub fn was_empty(&self) -> (r: bool) ensures r == (self.recs@.len() == 0) { self.recs.len() == 0 }
+    // `.iter().any(f)` over the records of the lookup, specified through the closure's own contract
+    #[verifier::external_body]
+    pub fn vp_any<F: Fn(&Record) -> bool>(&self, f: F) -> (r: bool)
+        requires forall|i: int| 0 <= i < self.recs@.len() ==> call_requires(f, (&#[trigger] self.recs@[i],))
+        ensures r ==> exists|i: int| 0 <= i < self.recs@.len() && call_ensures(f, (&#[trigger] self.recs@[i],), true),
+            !r ==> forall|i: int| 0 <= i < self.recs@.len() ==> call_ensures(f, (&#[trigger] self.recs@[i],), false)
+    { unimplemented!() }
+}
+pub struct VpLookupResult { pub l: VpLookup }
+impl VpLookupResult { pub fn unwrap_or_default(self) -> (r: VpLookup) ensures r == self.l { self.l } }
+pub struct LookupOptions { pub vp: u64 }
+impl LookupOptions { pub fn default() -> (r: LookupOptions) { LookupOptions { vp: 0 } } }
+impl SqliteZoneHandler {
+    // ZoneHandler::lookup on the zone as it is now (an Err or NXDOMAIN becomes the empty lookup through unwrap_or_default)
+    #[verifier::external_body]
+    pub fn lookup(&self, name: &Name, t: RecordType, x: Option<u64>, o: LookupOptions) -> (r: VpLookupResult)
+        ensures r.l.recs@ == zone_rrs(self.vp, *name, t)
+    { unimplemented!() }
+}
+// RFC 2136 3.2, one RR of the Prerequisite Section against the zone z
+pub open spec fn prereq_verdict(z: u64, zclass: DNSClass, rr: Record) -> ResponseCode {
+    if rr.ttl != 0 { ResponseCode::FormErr }
+    else if !in_zone(z, rr.name) { ResponseCode::NotZone }
+    else if rr.dns_class is ANY {
+        if !(rr.data is Update0 || rr.data is NULL) { ResponseCode::FormErr }
+        else if rr.rtype is ANY { if zone_rrs(z, rr.name, RecordType::ANY).len() == 0 { ResponseCode::NXDomain } else { ResponseCode::NoError } }     // 3.2.2 name is in use
+        else { if zone_rrs(z, rr.name, rr.rtype).len() == 0 { ResponseCode::NXRRSet } else { ResponseCode::NoError } }                              // 3.2.1 RRset exists (value independent)
+    } else if rr.dns_class is NONE {
+        if !(rr.data is Update0 || rr.data is NULL) { ResponseCode::FormErr }
+        else if rr.rtype is ANY { if zone_rrs(z, rr.name, RecordType::ANY).len() != 0 { ResponseCode::YXDomain } else { ResponseCode::NoError } }     // 3.2.4 name is not in use
+        else { if zone_rrs(z, rr.name, rr.rtype).len() != 0 { ResponseCode::YXRRSet } else { ResponseCode::NoError } }                              // 3.2.3 RRset does not exist
+    } else if rr.dns_class == zclass {
+        // 3.2.5 RRset exists (value dependent) -- as far as this function goes: the RR is a member of the zone's RRset
+        if exists|i: int| 0 <= i < zone_rrs(z, rr.name, rr.rtype).len() && rec_eq(#[trigger] zone_rrs(z, rr.name, rr.rtype)[i], rr) { ResponseCode::NoError } else { ResponseCode::NXRRSet }
+    } else { ResponseCode::FormErr }
+}
+impl SqliteZoneHandler {
+//%fn crates/server/src/store/sqlite/mod.rs :: impl<P: RuntimeProvider + Send + Sync> SqliteZoneHandler<P> :: verify_prerequisites
+//%sub1 "pub async fn" => "pub fn" # R-await: the awaits are zone lookups, modelled as plain calls
+//%sub ".await" => "" # R-await
+//%sub1 "let required_name = LowerName::from(&require.name);" => "let required_name = Name { id: require.name.id };" # R-shim: LowerName conversion (same name, lower-cased): the stand-in name is its identity
+//%sub1 "let origin = self.origin();" => "" # R-shim: folded into vp_in_zone below
+//%sub1 "!origin.zone_of(&(&require.name).into())" => "!self.vp_in_zone(&require.name)" # R-shim: LowerName conversion + zone_of: the uninterpreted inside-the-zone relation (as in pre_scan)
+//%sub "} else { continue; }" => "}" # R-cont: a `continue` that is the last statement of the loop body (every arm ends the body)
+//%sub1 ".iter() .any(" => ".vp_any(" # R-iter: slice::iter().any(f) -> contract-specified shim
+//%closure "|rr|"
+|rr: &Record| -> (b: bool) ensures b == rec_eq(*rr, *require)
+//%sub1 "rr == require" => "vp_rec_eq(rr, require)" # R-shim: PartialEq for Record
+//%after "for require in"
+            vp_it:
+//%after "for require in pre_requisites"
+            invariant forall|j: int| 0 <= j < vp_it.index@ ==> prereq_verdict(self.vp, self.in_memory.class, #[trigger] pre_requisites@[j]) is NoError
+//%contract
+        // succeeds only if EVERY prerequisite holds in the zone as it is now ...
+        ensures r is Ok ==> forall|j: int| 0 <= j < pre_requisites@.len() ==> prereq_verdict(self.vp, self.in_memory.class, #[trigger] pre_requisites@[j]) is NoError,
+            // ... and fails with the RCODE RFC 2136 3.2 assigns to some prerequisite that does not hold
+            r matches Err(c) ==> exists|j: int| 0 <= j < pre_requisites@.len() && prereq_verdict(self.vp, self.in_memory.class, #[trigger] pre_requisites@[j]) == c && !(c is NoError),
+//%mutant name_not_in_use_check_inverted "return Err(ResponseCode::YXDomain);" => "return Err(ResponseCode::NXDomain);"
+//%mutant ttl_not_checked "if require.ttl != 0 {" => "if false && require.ttl != 0 {"
+//%end
 }
 
 } // verus!
